@@ -1103,6 +1103,10 @@ bus_context_reload_config (BusContext *context,
   if (parser != NULL)
     bus_config_parser_unref (parser);
 
+  /* max_incomplete_connections may have changed: re-evaluate whether
+   * we should be accepting new connections */
+  bus_context_check_all_watches (context);
+
   _dbus_daemon_report_reloaded ();
   return ret;
 }
